@@ -77,6 +77,7 @@ def feStep (st : FeSt) (tok : String) : Option FeSt :=
   | 'c', b :: a :: s => do let f ← nat? rest; some { st with stack := (if f = 1 then b else a) :: s }
   | 't', b :: a :: s => do let f ← nat? rest; some { st with stack := (if f = 1 then b else a) :: s }
   | 'e', b :: a :: s => some { stack := b :: a :: s, out := st.out ++ [bit (a = b)] }
+  | 'E', b :: a :: s => some { stack := b :: a :: s, out := st.out ++ [bit (a = b)] }
   | 'x', b :: a :: s => some { stack := b :: a :: s, out := st.out ++ [if a < b then "2" else if a > b then "1" else "0"] }
   | 's', a :: s => some { st with stack := a :: s }
   | 'g', a :: s => some { stack := a :: s, out := st.out ++ [hx (be32 a)] }
